@@ -124,4 +124,34 @@ are not connected, so a change of the default host did not rebuild the borrower 
 example : ¬ Adj (applyCalls ([] : Tr Node) []) ("H", "<default>") ("H", "c.local") := by
   simp [applyCalls, Adj]
 
+/-! ## `converters.Sync`: the order of clearing and converting -/
+
+/-- the flag every converter is called with -/
+def needFull (env : Env) (c : ConvView) : Bool :=
+  c.batchFull || GoLib.readB env "gateway.NeedFullSync" || GoLib.readB env "ingress.NeedFullSync"
+
+def clearing (full : Bool) : List String := if full then ["ClearLinks", "haproxy.Clear"] else []
+def gatewaySteps (c : ConvView) (full : Bool) : List String :=
+  (if c.hasGatewayV1 then ["gateway.Sync" ++ ":" ++ toString full ++ ":" ++ "v1"] else []) ++
+  (if c.hasGatewayB1 then ["gateway.Sync" ++ ":" ++ toString full ++ ":" ++ "v1beta1"] else []) ++
+  (if c.hasGatewayA2 then ["gateway.Sync" ++ ":" ++ toString full ++ ":" ++ "v1alpha2"] else [])
+
+/-- **`converters.Sync` is: (swap the batch,) clear tracker AND model iff a full sync is needed — before any converter
+runs —, the gateway converters, the ingress converter, the ConfigMap TCP converter; every converter is handed the same
+full-sync flag.**  (M-Sync's `fullSync` starts from the empty tracker and model, `partialSync` from the committed
+ones: C01; the Gateway flow runs before the ingress converter parses the global config: known finding C18.) -/
+theorem convertersSync_tie (env : Env) (c : ConvView) :
+    CodeC01.convertersSync env c [] =
+      (if c.changedNil then ["SwapChangedObjects"] else []) ++ clearing (needFull env c) ++
+      gatewaySteps c (needFull env c) ++ ["ingress.Sync" ++ ":" ++ toString (needFull env c)] ++
+      (if c.tcpCur || c.tcpNew then ["tcpconfigmap.Sync"] else []) := by
+  unfold CodeC01.convertersSync clearing gatewaySteps needFull
+  simp only [GoLib.callU, GoLib.eff, GoLib.effBS, GoLib.effB]
+  cases c.changedNil <;> cases (c.batchFull || GoLib.readB env "gateway.NeedFullSync" || GoLib.readB env "ingress.NeedFullSync") <;>
+    cases c.hasGatewayV1 <;> cases c.hasGatewayB1 <;> cases c.hasGatewayA2 <;> cases c.tcpCur <;> cases c.tcpNew <;> rfl
+
+example : CodeC01.convertersSync ⟨fun _ => false, fun n => n == "ingress.NeedFullSync", fun _ => 0⟩
+    ⟨false, false, true, false, false, false, false⟩ [] =
+    ["ClearLinks", "haproxy.Clear", "gateway.Sync:true:v1", "ingress.Sync:true"] := by decide
+
 end HapVerif.C01Tie
